@@ -4,11 +4,12 @@ list of statements (one step per unit of fuel, so that every theorem about loops
 unfolding equation and fuel monotonicity is a plain induction).
 
 Mirrored Rust code:
-  rsass/src/output/transform.rs   handle_item: Item::IfStatement / Each / For / While /
-                                  VariableDeclaration / Property
-  rsass/src/variablescope.rs      Scope::{define (set_variable: always the innermost scope),
-                                  define_multi, store_local_values, restore_local_values,
-                                  get (walks the parents)}, ScopeRef::sub
+  rsass/src/output/transform.rs   handle_item: Item::IfStatement (same scope) / Each / For (a
+                                  `sub_flow` scope per round) / While (one `sub_flow` scope) /
+                                  VariableDeclaration / Property   (as of commits 2e77b95, 90cea8e)
+  rsass/src/variablescope.rs      Scope::{define (innermost scope), assign (the innermost enclosing
+                                  scope that declares the name, else the innermost scope),
+                                  define_multi, get (walks the parents)}, ScopeRef::sub_flow
   rsass/src/value/range.rs        ValueRange::new, Iterator::next
   rsass/src/sass/srcrange.rs      SrcRange::evaluate (unit of `from`, conversion of `to`)
   rsass/src/css/value.rs          Value::iter_items, Value::is_true
@@ -108,11 +109,28 @@ def Env.get : Env → Nat → Option V
     | some v => some v
     | none => Env.get rest x
 
-/-- `Scope::define` = `set_variable(name, val, false, false)`: always inserts into the
-innermost scope (that an outer variable is not updated is finding C16's subject) -/
+/-- `Scope::define` (loop variables): inserts into the innermost scope -/
 def Env.define : Env → Nat → V → Env
   | [], x, v => [[(x, v)]]
   | f :: rest, x, v => f.set x v :: rest
+
+/-- the innermost enclosing scope that already declares `x` is updated; `none` when no
+scope declares it -/
+def Env.update : Env → Nat → V → Option Env
+  | [], _, _ => none
+  | f :: rest, x, v =>
+    match f.get x with
+    | some _ => some (f.set x v :: rest)
+    | none => (Env.update rest x v).map fun r => f :: r
+
+/-- `Scope::assign` (`$x: e`; commit 2e77b95): update the declaring scope, otherwise declare
+a new local variable.  All scopes of the generated programs lie inside a style rule, so the
+special treatment of the *global* scope (updated only through flow-control scopes) does not
+arise: the outermost frame of the model is the rule's scope. -/
+def Env.assign (env : Env) (x : Nat) (v : V) : Env :=
+  match env.update x v with
+  | some e => e
+  | none => env.define x v
 
 /-- `Scope::define_multi`: one name takes the value itself; several names take the items,
 missing positions are `null`, excess items are ignored -/
@@ -123,17 +141,6 @@ def bindNames (names : List Nat) (v : V) : List (Nat × V) :=
 
 def Env.defineAll (env : Env) (bs : List (Nat × V)) : Env :=
   bs.foldl (fun e b => e.define b.1 b.2) env
-
-/-- `Scope::store_local_values`: the innermost scope's own values of the names -/
-def Env.store (env : Env) (names : List Nat) : List (Nat × Option V) :=
-  names.map fun x => (x, match env with | [] => none | f :: _ => f.get x)
-
-/-- `Scope::restore_local_values` -/
-def Env.restore (env : Env) (saved : List (Nat × Option V)) : Env :=
-  match env with
-  | [] => []
-  | f :: rest =>
-    (saved.foldl (fun f s => match s.2 with | some v => Frame.set f s.1 v | none => Frame.del f s.1) f) :: rest
 
 /-! ### expressions -/
 
@@ -192,14 +199,12 @@ inductive Stmt
   -- internal continuations of the machine (never produced by the parser)
   /-- remaining iterations of a `@for`: each in a fresh sub-scope -/
   | forNext (x : Nat) (vs : List V) (body : List Stmt)
-  /-- remaining iterations of an `@each`: in the enclosing scope itself -/
+  /-- remaining iterations of an `@each`: each in a fresh sub-scope -/
   | eachNext (names : List Nat) (vs : List V) (body : List Stmt)
   /-- re-test of a `@while` condition (in the loop's own sub-scope) -/
   | whileNext (c : Expr) (body : List Stmt)
   /-- leave a sub-scope -/
   | pop
-  /-- `restore_local_values` after an `@each` -/
-  | restore (saved : List (Nat × Option V))
 
 structure St where
   env : Env
@@ -223,7 +228,7 @@ def exec : Nat → List Stmt → St → Except Err St
       | .error er => .error er
     | .assign x e =>
       match eval st.env e with
-      | .ok v => exec n k { st with env := st.env.define x v }
+      | .ok v => exec n k { st with env := st.env.assign x v }
       | .error er => .error er
     | .ifs c t e =>
       match eval st.env c with
@@ -243,19 +248,18 @@ def exec : Nat → List Stmt → St → Except Err St
     | .each names e body =>
       match eval st.env e with
       | .ok v =>
-        exec n (Stmt.eachNext names (items v) body :: Stmt.restore (st.env.store names) :: k) st
+        exec n (Stmt.eachNext names (items v) body :: k) st
       | .error er => .error er
     | .eachNext _ [] _ => exec n k st
     | .eachNext names (v :: vs) body =>
-      exec n (body ++ Stmt.eachNext names vs body :: k)
-        { st with env := st.env.defineAll (bindNames names v) }
+      exec n (body ++ Stmt.pop :: Stmt.eachNext names vs body :: k)
+        { st with env := Env.defineAll ([] :: st.env) (bindNames names v) }
     | .whil c body => exec n (Stmt.whileNext c body :: Stmt.pop :: k) { st with env := [] :: st.env }
     | .whileNext c body =>
       match eval st.env c with
       | .ok v => if truthy v then exec n (body ++ Stmt.whileNext c body :: k) st else exec n k st
       | .error er => .error er
     | .pop => exec n k { st with env := st.env.tail }
-    | .restore saved => exec n k { st with env := st.env.restore saved }
 
 /-- run a program in a fresh root scope; the emitted declarations in order -/
 def run (fuel : Nat) (prog : List Stmt) : Except Err (List (Nat × V)) :=
